@@ -140,6 +140,26 @@ func runSweep(w *World, only map[string]bool, perQueryMs int, expected map[strin
 			for r := range ch {
 				if r.Engine != nil {
 					solveIncremental(r.Engine, r.Obls, perQueryMs, 60+len(r.Obls)*perQueryMs/1000)
+					if expected != nil {
+						// check mode: a claimed obligation the incremental run left undecided gets the full treatment
+						// (own query, solver race, reseeded retry) before it is reported
+						for _, o := range r.Obls {
+							if o.Res != nil && (o.Res.Status == "unsat" || o.Res.Status == "sat") {
+								continue
+							}
+							initWorkDir()
+							file := filepath.Join(workDir, sanitizeFile("sweep1."+o.Name)+".smt2")
+							os.WriteFile(file, []byte(r.Engine.smtText(o, "", "")), 0o644)
+							x := solveFile(file, 5, 30)
+							if x.Status != "unsat" && x.Status != "sat" {
+								if y := solveFileReseeded(file, 30); y.Status == "unsat" {
+									y.Solver += "(reseeded)"
+									x = y
+								}
+							}
+							o.Res = &x
+						}
+					}
 				}
 				// release the (large) symbolic state: only verdicts are kept; a refuted obligation is
 				// regenerated on demand for replay
@@ -196,7 +216,7 @@ func cmdSweepClaim() int {
 		return 2
 	}
 	start := time.Now()
-	results := runSweep(w, nil, 2000, nil)
+	results := runSweep(w, nil, 1000, nil)
 	var names []string
 	nfn, nobl, nproved, nerr := 0, 0, 0, 0
 	for _, r := range results {
